@@ -293,7 +293,12 @@ fn run_case(seed: u64, idx: u64, _tier: Tier, out: &mut CaseOut) {
                     }
                 });
             }
-            let input = ser_canonical(&doc);
+            let mut input = ser_canonical(&doc);
+            if rng.chance(1, 4) {
+                // emoji / variation-selector sequences inside struck-out text: the strike
+                // marks must not change how lines are measured and padded
+                input = crate::gen::sprinkle_unicode(&mut rng, &input, 60);
+            }
             let mut opt = base.clone();
             opt.strikeout = Some(false);
             let a = render_string(&base, &input, w);
